@@ -7,8 +7,71 @@ from sa.dataflow import cmp_key, cmp_atoms
 from sa.resolve import walk_function
 
 
+REF_ALLOC_INIT = """
+def __init__({sig}):
+    if mapping is not None:
+        generator = mapping.items()
+    elif keys is not None and values is not None:
+        if len(keys) != len(values):
+            raise ValueError()
+        generator = zip(keys, values)
+    else:
+        generator = dict().items()
+    data = {{contract.static_hashing(): value for contract, value in generator if not isinstance(contract, Cash) if value != 0}}
+    super().__init__(data)
+"""
+
+
 def allocation_filters(ck, an, name_prefix):
     """_Allocation.__init__ drops Cash and zero entries and keys by static_hashing()."""
+    fa = an.fa("_Allocation.__init__")
+    subj = fa.f.short
+    # value id of what initialises the dictionary against the reference: equal ids discharge every clause below whatever the
+    # spelling (loop / comprehension / helper / temporaries); when they differ, the clauses below name what changed
+    ref = _lib.reference(fa, REF_ALLOC_INIT.format(sig=ast.unparse(fa.f.node.args)))
+
+    def init_arg(x):
+        cs = [c for c in x.calls_named("__init__") if c.args]
+        return x.sym.canon(cs[0].args[0], x.node_of(cs[0]).id) if len(cs) == 1 else None
+    got, want = init_arg(fa), init_arg(ref)
+    raises_ok = len([n for n in walk_function(fa.f.node) if isinstance(n, ast.Raise)]) == 1
+    if got is not None and got == want and raises_ok:
+        for cl, what in (("drops-cash", "entries for Cash contracts are dropped"), ("drops-zero", "zero entries are dropped"), ("no-other-filter", "no other entry is filtered out"),
+                         ("static-hashing-key", "keys are normalised with static_hashing()"), ("value-unchanged", "values are stored unchanged"),
+                         ("filtered-data-used", "the filtered mapping initialises the dictionary"), ("pairs-source", "pairs come from mapping.items() or zip(keys, values) (i-th key with i-th value)")):
+            ck.ok("ARGFLOW", f"{name_prefix}.{cl}", subj, fa.f.loc, what + " (value id of the initialising mapping equals the reference)", construct="super().__init__(data)")
+        for c in an.prog.subclasses(an.prog.cls("_Allocation")):
+            ck.check("__init__" not in c.methods, "MRO", f"{name_prefix}.no-init-override", c.name, c.loc, f"{c.name} is built through _Allocation.__init__",
+                     f"{c.name} overrides __init__ and may bypass the Cash/zero filters", construct=f"{c.name}.__init__")
+        return
+    cnt = _Counting(ck)
+    _allocation_filters_fine(cnt, an, name_prefix)
+    if not cnt.fails:
+        ck.fail("ARGFLOW", f"{name_prefix}.allocation-as-specified", subj, fa.f.loc, f"the mapping that initialises the allocation is {str(got)[:300]}; specified {str(want)[:300]}" + ("" if raises_ok else "; the length check no longer raises exactly once"),
+                construct="super().__init__(data)", witness=[f"got       {got}", f"specified {want}"])
+
+
+class _Counting:
+    """Checker view that counts refuted obligations (used to fall back to a general clause when no specific one names the difference)."""
+
+    def __init__(self, ck):
+        self._ck = ck
+        self.fails = 0
+
+    def fail(self, *a, **k):
+        self.fails += 1
+        return self._ck.fail(*a, **k)
+
+    def check(self, cond, *a, **k):
+        if not cond:
+            self.fails += 1
+        return self._ck.check(cond, *a, **k)
+
+    def __getattr__(self, n):
+        return getattr(self._ck, n)
+
+
+def _allocation_filters_fine(ck, an, name_prefix):
     fa = an.fa("_Allocation.__init__")
     subj = fa.f.short
     comps = [n for n in walk_function(fa.f.node) if isinstance(n, ast.DictComp)]
